@@ -526,6 +526,65 @@ func runC11(c *core.Ctx) {
 	if pv != nil {
 		c.Violationf("panic:interface-family", nil, "interface{} MonadIO panics: %v at %s", pv, where)
 	}
+	// the monad is parametric in the carried value: values that are themselves MonadIOs / Maybes / funcs / nil travel
+	// through Just, New, FlatMap, Eval and Subscribe untouched (interface{} entry points and the generic ones)
+	{
+		innerRuns := 0
+		inner := fpgo.MonadIO.New(func() interface{} { innerRuns++; return 42 })
+		innerJust := fpgo.MonadIO.Just(7)
+		type carried struct {
+			name string
+			v    interface{}
+		}
+		vals := []carried{{"a *MonadIODef[interface{}] built by New", inner}, {"a *MonadIODef[interface{}] built by Just", innerJust},
+			{"a (*MonadIODef[interface{}])(nil)", (*fpgo.MonadIODef[interface{}])(nil)}, {"a Maybe", fpgo.Maybe.Just(3)}, {"nil", nil}, {"a *MonadIODef[int]", fpgo.MonadIOJustGenerics(5)}}
+		same := func(a, b interface{}) bool {
+			defer func() { recover() }()
+			return a == b
+		}
+		for _, cv := range vals {
+			cv := cv
+			c.Eval(1)
+			c.DistinctAdd(1)
+			pv, where := core.Catch(func() {
+				rep := map[string]any{"carried_value": cv.name}
+				if got := fpgo.MonadIO.Just(cv.v).Eval(); !same(got, cv.v) {
+					c.Violationf("carried-value:Just.Eval", rep, "MonadIO.Just(x).Eval() with x = %s returned %v (%T), want x itself", cv.name, got, got)
+				}
+				if got := fpgo.MonadIO.New(func() interface{} { return cv.v }).Eval(); !same(got, cv.v) {
+					c.Violationf("carried-value:New.Eval", rep, "MonadIO.New(func() x).Eval() with x = %s returned %v (%T), want x itself", cv.name, got, got)
+				}
+				var fGot interface{} = "f not called"
+				f := func(x interface{}) *fpgo.MonadIODef[interface{}] { fGot = x; return fpgo.MonadIO.Just("f-result") }
+				if got := fpgo.MonadIO.Just(cv.v).FlatMap(f).Eval(); got != "f-result" || !same(fGot, cv.v) {
+					c.Violationf("carried-value:left-identity", rep, "MonadIO.Just(x).FlatMap(f).Eval() with x = %s: f received %v (%T) and the result is %v; f(x) receives x itself", cv.name, fGot, fGot, got)
+				}
+				m := fpgo.MonadIO.New(func() interface{} { return cv.v })
+				if got := m.FlatMap(func(x interface{}) *fpgo.MonadIODef[interface{}] { return fpgo.MonadIO.Just(x) }).Eval(); !same(got, cv.v) {
+					c.Violationf("carried-value:right-identity", rep, "m.FlatMap(Just).Eval() with m yielding x = %s returned %v (%T), want x itself", cv.name, got, got)
+				}
+				var delivered interface{} = "nothing"
+				fpgo.MonadIO.Just(cv.v).Subscribe(fpgo.Subscription[interface{}]{OnNext: func(v interface{}) { delivered = v }})
+				if !same(delivered, cv.v) {
+					c.Violationf("carried-value:Subscribe", rep, "MonadIO.Just(x).Subscribe delivered %v (%T) with x = %s, want x itself", delivered, delivered, cv.name)
+				}
+			})
+			if pv != nil {
+				c.Violationf("panic:carried-value", map[string]any{"carried_value": cv.name}, "a MonadIO carrying %s panics: %v at %s", cv.name, pv, where)
+			}
+		}
+		if innerRuns != 0 {
+			c.Violationf("carried-value:effect-of-the-value-ran", nil, "the effect of a MonadIO that was only CARRIED as a value by another MonadIO ran %d times", innerRuns)
+		}
+		// generic family: MonadIODef[*MonadIODef[int]]
+		c.Eval(1)
+		in2Runs := 0
+		in2 := fpgo.MonadIONewGenerics(func() int { in2Runs++; return 1 })
+		outer := fpgo.MonadIOJustGenerics(in2)
+		if got := outer.FlatMap(func(x *fpgo.MonadIODef[int]) *fpgo.MonadIODef[*fpgo.MonadIODef[int]] { return fpgo.MonadIOJustGenerics(x) }).Eval(); got != in2 || in2Runs != 0 {
+			c.Violationf("carried-value:generic", nil, "MonadIOJustGenerics(m).FlatMap(Just).Eval() returned %p (want %p), the carried MonadIO's effect ran %d times", got, in2, in2Runs)
+		}
+	}
 	c.Count("programs", int64(len(progs)))
 	c.Note("exhaustive_programs", fmt.Sprintf("all chains of depth <= %d over 3 leaves x %d continuation kinds", depth, c11NConts))
 	c.Sample(map[string]any{"program": progs[17].String(), "modes": "construct; Eval x3; Subscribe x2 under 4 handler combinations; nil OnNext; laws"})
@@ -540,7 +599,7 @@ func init() {
 		Meta: func(c *core.Ctx) core.Meta {
 			return core.Meta{
 				Level: "exploration",
-				Rule: "programs = Just/New leaves followed by a FlatMap chain of depth <= D (D=3 quick, 5 thorough; all chains enumerated) over 5 continuation kinds (pure Just, New with effect, nested FlatMap, continuation that logs when called, FlatMap(Just) tail) plus PRNG chains up to length 30; each program: log empty after construction and after ObserveOn/SubscribeOn, Eval x3 and Subscribe x2 under all four nil/non-nil handler combinations each add exactly the expected effect sequence and deliver exactly one value, goroutine identity of effects and OnNext, nil OnNext runs nothing, handlers stay bound to a subscription when the MonadIO is re-configured while its effect is in flight, left/right identity and associativity by (value, effect log); branching compositions (two children of one parent of depth 0..18 (thorough 40) x all 25 continuation pairs, each extended once more, evaluated twice in interleaved order); 5 Subscribes of one counting MonadIO whose deliveries are pending on a busy SubscribeOn handler (each must get the value of its own evaluation). " +
+				Rule: "programs = Just/New leaves followed by a FlatMap chain of depth <= D (D=3 quick, 5 thorough; all chains enumerated) over 5 continuation kinds (pure Just, New with effect, nested FlatMap, continuation that logs when called, FlatMap(Just) tail) plus PRNG chains up to length 30; each program: log empty after construction and after ObserveOn/SubscribeOn, Eval x3 and Subscribe x2 under all four nil/non-nil handler combinations each add exactly the expected effect sequence and deliver exactly one value, goroutine identity of effects and OnNext, nil OnNext runs nothing, handlers stay bound to a subscription when the MonadIO is re-configured while its effect is in flight, left/right identity and associativity by (value, effect log); carried values that are themselves MonadIOs / Maybes / nil (Just, New, FlatMap, Eval, Subscribe hand them on untouched and never run them); branching compositions (two children of one parent of depth 0..18 (thorough 40) x all 25 continuation pairs, each extended once more, evaluated twice in interleaved order); 5 Subscribes of one counting MonadIO whose deliveries are pending on a busy SubscribeOn handler (each must get the value of its own evaluation). " +
 					"distinct_nontrivial = enumerated (program, mode) cases whose expected effect log is non-empty",
 				Assumptions: []string{"observe and subscribe handlers are two distinct handlers (posting to an unbuffered handler from its own goroutine blocks by construction)",
 					"with ObserveOn only, OnNext runs on the observe handler's goroutine", "sequential driver: the property quantifies over compositions, not schedules"},
